@@ -133,7 +133,7 @@ def nudge(spec, path, delta):
 
 
 @st.composite
-def cases(draw, path):
+def cases(draw, path, module=None, algo=None):
     tol = draw(st.sampled_from(TOLS))
     deep = draw(st.booleans())
     nargs = draw(st.integers(0, 3))
@@ -155,7 +155,7 @@ def cases(draw, path):
             kws2[i][1] = nudge(kws[i][1], p, delta)
         nudged = [w, i, len(p)]
     case = {'tol': tol, 'deep': deep, 'args': args, 'kws': kws, 'args2': args2, 'kws2': kws2, 'nudged': nudged, 'path': path,
-            'module': draw(st.sampled_from(['std', 'safe'])), 'algo': draw(st.sampled_from(H.ALGOS)),
+            'module': module or draw(st.sampled_from(['std', 'safe'])), 'algo': algo or draw(st.sampled_from(H.ALGOS + H.DISPATCHED + ['lru:0', 'rr:0'])),
             'named': draw(st.booleans()),
             'keymap': draw(st.sampled_from([{'cls': 'picklemap', 'opt': None, 'flat': True}, {'cls': 'picklemap', 'opt': None, 'flat': False},
                                             {'cls': 'stringmap', 'opt': 'repr', 'flat': True}, {'cls': 'hashmap', 'opt': 'md5', 'flat': False},
@@ -165,7 +165,14 @@ def cases(draw, path):
 
 
 def strata(tier):
-    return [('path:' + p, cases(p)) for p in PATHS]
+    # the real-call path is stratified over module x algorithm: each of the 12 wrappers has its own copy of the rounding / keying lines
+    out = [('path:' + p, cases(p)) for p in PATHS if p != 'call']
+    for m in ('std', 'safe'):
+        for a in H.ALGOS:
+            if a != 'no':
+                out.append(('path:call/%s/%s' % (m, a), cases('call', m, a)))
+    out.append(('path:call/dispatched', cases('call')))
+    return out
 
 
 # ------------------------------------------------------------ execution
@@ -273,7 +280,7 @@ def run_case(case):
             multiset = any(has_multiset(x) for x in specs + list(case['args2']) + [v for _, v in case['kws2']])
             if multiset:
                 classes.append('sharing_not_asserted_sets')   # repr order of a set with >1 element is not a rounding matter
-            if case['algo'] != 'no' and not out and not multiset:
+            if case['algo'] != 'no' and not case['algo'].endswith(':0') and not out and not multiset:
                 evaluated_again = (n2 - n1) == 1
                 if shares and evaluated_again:
                     out.append(Discrepancy('C12/%s/same-rounding-not-shared' % tag, 'tol=%r deep=%r: %r %r and %r %r round to the same values but were computed separately' % (tol, deep, a1, k1, a2, k2)))
